@@ -779,6 +779,39 @@ class Interp:
                 val = None
             if val is not None:
                 return [(st, mk_const(val, oty))]
+        # x ^ all-ones == MAX - x (linear)
+        if base == "BitXor" and tr is not None and tr[0] == 0:
+            for x, y in ((ia, ib), (ib, ia)):
+                if y.lin.is_const() and y.lin.c == tr[1]:
+                    return [(st, mk_int(Lin.const(tr[1]).sub(x.lin), expr="BitXor(%s, %s)" % (show(x), _fmt(tr[1])), ty=oty))]
+        # small ranges: the abstract transformer is computed exactly over the interval
+        if base in ("BitAnd", "BitOr", "BitXor", "Shl", "Shr", "Rem", "Div") and ib.lin.is_const() and la != -INF and ha != INF \
+                and la >= 0 and ha - la <= 4096:
+            y = ib.lin.c
+            vals = set()
+            for x in range(int(la), int(ha) + 1):
+                if base == "BitAnd":
+                    vals.add(x & y)
+                elif base == "BitOr":
+                    vals.add(x | y)
+                elif base == "BitXor":
+                    vals.add(x ^ y)
+                elif base == "Shl":
+                    vals.add((x << y) & (tr[1] if tr and tr[0] == 0 else (1 << 200) - 1))
+                elif base == "Shr":
+                    vals.add(x >> y)
+                elif base == "Rem" and y > 0:
+                    vals.add(x % y)
+                elif base == "Div" and y > 0:
+                    vals.add(x // y)
+            if len(vals) == 1:
+                return [(st, mk_const(vals.pop(), oty))]
+            if vals:
+                s = self.fresh_sym(st, "t", min(vals), max(vals))
+                v = mk_int(Lin.sym(s), expr=expr, ty=oty)
+                if with_of:
+                    return [(st, V("tuple", fields=[v, mk_const(0, "bool")]))]
+                return [(st, v)]
         if base == "BitAnd" and ib.lin.is_const() and ib.lin.c >= 0:
             hi = min(hi, ib.lin.c)
             lo = max(lo, 0)
@@ -831,6 +864,15 @@ class Interp:
             return [(st, None)]
         ret_ty = body.local_ty(t["dest"]["l"]) if not t["dest"]["p"] else None
         return [(st, mk_obj("%s(%s)" % (label, ", ".join(show(a) for a in args)), ret_ty))]
+
+    def apply_fn(self, st, fnv, actual):
+        """Call a closure / fn value abstractly."""
+        if fnv.k == "closure" and fnv.path in self.facts.bodies:
+            return self.inline_call(st, self.facts.bodies[fnv.path], [fnv] + list(actual))
+        if fnv.k == "fn" and fnv.path in self.facts.bodies:
+            return self.inline_call(st, self.facts.bodies[fnv.path], list(actual))
+        label = short(fnv.path) if fnv.path else "?"
+        return [(st, mk_obj("%s(%s)" % (label, ", ".join(show(a) for a in actual))))]
 
     def inline_call(self, st, callee, args):
         sub = Interp(self.facts, self.assume, self.inline, self.max_paths, self.max_visits, sym_names=self.sym_names)
@@ -975,6 +1017,51 @@ class Interp:
                 self._refine_obj(s2, body, t["args"][0], args[0], vidx, vname)
                 truth = (vname == "Some") == (name == "is_some")
                 out.append((s2, mk_const(1 if truth else 0, "bool")))
+            return out
+        if std and owner.startswith("std::option::Option") and name in ("map", "and_then", "unwrap_or_else", "map_or", "is_some_and") \
+                and args and args[0].k in ("variant", "obj"):
+            opt = args[0]
+            cases = []
+            if opt.k == "variant":
+                cases.append((st, opt))
+            else:
+                for vidx, vname in ((0, "None"), (1, "Some")):
+                    s2 = st.copy()
+                    s2.conds.append(("%s is %s" % (opt.path, vname), True))
+                    cases.append((s2, V("variant", vidx=vidx, vname=vname, fields={}, path=opt.path)))
+            out = []
+            none_v = V("variant", adt="std::option::Option", vidx=0, vname="None", fields={})
+            for s2, v in cases:
+                is_some = v.vname == "Some"
+                payload = (v.fields or {}).get(0)
+                if is_some and payload is None:
+                    payload = mk_obj("%s↓Some.0" % v.path) if v.path else TOP
+                if name == "map":
+                    if not is_some:
+                        out.append((s2, none_v))
+                    else:
+                        for s3, r in self.apply_fn(s2, args[1], [payload]):
+                            out.append((s3, r if isinstance(r, tuple) else V("variant", adt="std::option::Option", vidx=1, vname="Some", fields={0: r})))
+                elif name == "and_then":
+                    if not is_some:
+                        out.append((s2, none_v))
+                    else:
+                        out.extend(self.apply_fn(s2, args[1], [payload]))
+                elif name == "unwrap_or_else":
+                    if is_some:
+                        out.append((s2, payload))
+                    else:
+                        out.extend(self.apply_fn(s2, args[1], []))
+                elif name == "map_or":
+                    if is_some:
+                        out.extend(self.apply_fn(s2, args[2], [payload]))
+                    else:
+                        out.append((s2, args[1]))
+                elif name == "is_some_and":
+                    if is_some:
+                        out.extend(self.apply_fn(s2, args[1], [payload]))
+                    else:
+                        out.append((s2, mk_const(0, "bool")))
             return out
         if trait == "std::ops::Try" and name == "branch" and args and args[0].k == "variant":
             v = args[0]
@@ -1144,7 +1231,14 @@ class Interp:
             # otherwise edge only if some variant is not listed
             if len(names) == 0 or len(targets) < len(names):
                 s2 = st.copy()
-                s2.conds.append(("%s is another variant" % objv.path, True))
+                listed = {v for v, _ in targets}
+                missing = [i for i in names if i not in listed]
+                if len(missing) == 1:
+                    vname = names[missing[0]]
+                    s2.conds.append(("%s is %s" % (objv.path, vname), True))
+                    self._write_back(s2, body, pl, V("variant", vidx=missing[0], vname=vname, fields={}, path=objv.path))
+                else:
+                    s2.conds.append(("%s is another variant" % objv.path, True))
                 work.append((s2, t["otherwise"]))
             return
         iv = self.as_int(st, d, t.get("dty"))
